@@ -9,6 +9,7 @@ V=/verif
 mkdir -p "$S" || exit 2
 ( cd $V/simgen && go build -o "$S/simgen" . ) >"$S/build.log" 2>&1 || { cat "$S/build.log" >&2; exit 2; }
 rsync -a --delete --exclude .git --exclude examples --exclude nexusd --exclude snap "${VERIF_REPO:-/repo}/" "$S/nexus/" || exit 2
+( cd "$S/nexus" && go mod edit -require=github.com/anishathalye/porcupine@v1.3.0 ) >>"$S/build.log" 2>&1 || { cat "$S/build.log" >&2; exit 2; }
 mkdir -p "$S/nexus/simrt" "$S/nexus/vsim"
 cp $V/simrt/*.go "$S/nexus/simrt/" && cp $V/vsim/*.go "$S/nexus/vsim/" || exit 2
 ( cd "$S/nexus" && "$S/simgen" -dir . -tags verif -report "$S/simgen_report.json" ./wamp/... ./transport/... ./router/... ./client/... ./stdlog/... ./vsim/... ) >>"$S/build.log" 2>&1 || { cat "$S/build.log" >&2; exit 2; }
